@@ -308,11 +308,11 @@ pub open spec fn lbl_rgce(d: Seq<u8>) -> Seq<u8> { d.subrange(15 + lbl_nb(d), 15
 /// one defined name: its text and its formula
 pub struct LblV { pub name: Seq<char>, pub rgce: Seq<u8> }
 /// the formulas whose meaning this unit pins down (module dn: C16.empty_rgce, ref3d_text, area3d_text, referr3d_text, areaerr3d_text):
-/// empty, or a first token PtgRef3d / PtgArea3d with absolute coordinates, PtgRefErr3d, PtgAreaErr3d -- complete
+/// empty, or a complete first token PtgRef3d / PtgArea3d / PtgRefErr3d / PtgAreaErr3d
 pub open spec fn dn_known(r: Seq<u8>) -> bool {
     r.len() == 0
-    || (r.len() >= 7 && is_ref3d(r[0]) && absolute_cf(u16_at(r, 5)))
-    || (r.len() >= 11 && is_area3d(r[0]) && absolute_cf(u16_at(r, 7)) && absolute_cf(u16_at(r, 9)))
+    || (r.len() >= 7 && is_ref3d(r[0]))
+    || (r.len() >= 11 && is_area3d(r[0]))
     || (r.len() >= 7 && is_referr3d(r[0]))
     || (r.len() >= 11 && is_areaerr3d(r[0]))
 }
